@@ -629,3 +629,93 @@ func TestVerifC19(t *testing.T) {
 			return out
 		}})
 }
+
+// ---- C14 at the level of rooms and sessions (hub scenario of C14, descriptor props/C14H.json) ----
+func TestVerifC14H(t *testing.T) {
+	hdRunProperty(t, hdProp{id: "C14H", quick: 110, thorough: 1100, minOps: 22,
+		opts: func(i int) hdGenOpts {
+			return hdGenOpts{api: true, internal: i%3 == 0, virtual: i%6 == 0, transient: true, resume: i%2 == 0, endings: i%4 == 1}
+		},
+		nontrivial: func(c *hdCase, tr string) bool { return strings.Count(tr, "STransient") >= 2 },
+		directed: func() []*hdCase {
+			set := func(c, key, val int) hdOp { return hdOp{K: "transient", C: c, Tk: "set", Key: key, Tag: val} }
+			rem := func(c, key int) hdOp { return hdOp{K: "transient", C: c, Tk: "remove", Key: key} }
+			bset := func(b, room, key, val int) hdOp {
+				return hdOp{K: "api", B: b, SignAs: b, R: room, Api: "transient", Tk: "set", Key: key, Tag: val}
+			}
+			bdel := func(b, room, key int) hdOp {
+				return hdOp{K: "api", B: b, SignAs: b, R: room, Api: "transient", Tk: "delete", Key: key}
+			}
+			perms := func(b, room, rs int, p ...int) hdOp {
+				return hdOp{K: "api", B: b, SignAs: b, R: room, Api: "participants", RawRS: true, Users: []hdApiUser{{RS: rs, InCall: 0, HasP: true, Perm: p}}}
+			}
+			joinP := func(c, room, rs int, p ...int) hdOp {
+				o := hdJoinOp(c, room, rs)
+				o.HasP, o.Perm = true, p
+				return o
+			}
+			three := []hdOp{{K: "connect", C: 1}, {K: "connect", C: 2}, {K: "connect", C: 3},
+				{K: "hello", C: 1, B: 0, U: 1}, {K: "hello", C: 2, B: 0, U: 2}, {K: "hello", C: 3, B: 0, U: 3}}
+			var out []*hdCase
+			id := 0
+			add := func(ops ...hdOp) {
+				out = append(out, &hdCase{Id: id, Mode: 1, Ops: append(append([]hdOp{}, three...), ops...)})
+				id++
+			}
+			// initial data on join; set, the same value again, another value, remove, remove again, a set without value,
+			// a type the server does not know
+			add(hdJoinOp(1, 1, 1), set(1, 1, 1), set(1, 2, 2), hdJoinOp(2, 1, 2), set(2, 1, 1), set(2, 1, 3), set(1, 0, 2), rem(2, 2), rem(2, 2),
+				hdJoinOp(3, 1, 3), set(3, 1, 0), set(3, 1, 0), hdOp{K: "transient", C: 3, Tk: "bogus", Key: 1, Tag: 1}, rem(1, 0), rem(1, 0), hdJoinOp(3, 0, 0), hdJoinOp(3, 1, 3))
+			// a session that left the room, in every way, and the data changes afterwards (another session stays):
+			// leave, switch, bye, disconnect + expiry, disinvite
+			add(hdJoinOp(1, 1, 1), hdJoinOp(2, 1, 2), hdJoinOp(3, 1, 3), set(1, 1, 1), hdJoinOp(2, 0, 0), set(1, 1, 2), set(1, 2, 1), hdJoinOp(2, 1, 2), set(2, 2, 2))
+			add(hdJoinOp(1, 1, 1), hdJoinOp(2, 1, 2), set(1, 1, 1), hdJoinOp(2, 2, 2), set(1, 1, 2), set(2, 1, 3), set(2, 2, 1), rem(1, 1), hdJoinOp(2, 1, 2), rem(2, 2), hdJoinOp(1, 2, 1))
+			add(hdJoinOp(1, 1, 1), hdJoinOp(2, 1, 2), hdJoinOp(3, 1, 3), set(1, 1, 1), hdOp{K: "bye", C: 2}, set(1, 1, 2), set(3, 2, 2))
+			add(hdJoinOp(1, 1, 1), hdJoinOp(2, 1, 2), set(1, 1, 1), hdOp{K: "drop", C: 2}, set(1, 1, 2), hdOp{K: "tick", O: 40}, set(1, 2, 2), rem(1, 1))
+			add(hdJoinOp(1, 1, 1), hdJoinOp(2, 1, 2), set(1, 1, 1),
+				hdOp{K: "api", B: 0, SignAs: 0, R: 1, Api: "disinvite", RawRS: true, Users: []hdApiUser{{RS: 2}}}, set(1, 1, 2), rem(1, 1))
+			add(hdJoinOp(1, 1, 1), hdJoinOp(2, 1, 2), set(1, 1, 1),
+				hdOp{K: "api", B: 0, SignAs: 0, R: 1, Api: "disinvite", RawRS: true, Users: []hdApiUser{{U: 2}}}, set(1, 1, 2), rem(1, 1))
+			// kicked by a join with its Nextcloud session id
+			add(hdJoinOp(1, 1, 1), hdJoinOp(2, 1, 2), set(1, 1, 1), hdJoinOp(3, 1, 2), set(1, 1, 2), set(3, 2, 2))
+			// a resumed session: what changed while it was away is in its queue, in order; then it is a listener as before
+			add(hdJoinOp(1, 1, 1), hdJoinOp(2, 1, 2), set(1, 1, 1), hdOp{K: "drop", C: 2}, set(1, 1, 2), set(1, 2, 1), rem(1, 1),
+				hdOp{K: "connect", C: 4}, hdOp{K: "hello", C: 4, Ht: "resume", Id: &hdIdRef{T: "priv", C: 2}}, set(1, 1, 3), set(4, 2, 2), rem(4, 1))
+			// a room that was emptied and created again starts without data; the room deleted by the backend
+			add(hdJoinOp(1, 1, 1), set(1, 1, 1), set(1, 2, 2), hdJoinOp(1, 0, 0), hdJoinOp(1, 1, 1), hdJoinOp(2, 1, 2), set(2, 1, 1), hdJoinOp(1, 2, 1), hdJoinOp(2, 2, 2),
+				hdJoinOp(1, 1, 1), set(1, 2, 3))
+			add(hdJoinOp(1, 1, 1), hdJoinOp(2, 1, 2), set(1, 1, 1), hdOp{K: "api", B: 0, SignAs: 0, R: 1, Api: "delete"}, hdJoinOp(1, 1, 1), set(1, 1, 1), hdJoinOp(2, 1, 2))
+			// who may change the data: no room, no permission, the permission granted and withdrawn by the participants API
+			add(set(1, 1, 1), rem(1, 1), joinP(1, 1, 1), hdJoinOp(2, 1, 2), set(1, 1, 1), rem(1, 1), set(2, 1, 1), perms(0, 1, 1, 5), set(1, 1, 2), rem(1, 1),
+				perms(0, 1, 1, 0), set(1, 1, 3), hdOp{K: "transient", C: 1, Tk: "bogus", Key: 1}, perms(0, 1, 2), set(2, 1, 2), hdJoinOp(1, 0, 0), set(1, 1, 1))
+			// the room request: set / the same again / delete / delete again / without value; a room nobody is in; not
+			// a request type of the HTTP API
+			add(hdJoinOp(1, 1, 1), hdJoinOp(2, 1, 2), bset(0, 1, 1, 11), bset(0, 1, 1, 11), bset(0, 1, 1, 12), bset(0, 1, 2, 13), hdJoinOp(3, 1, 3), bdel(0, 1, 1), bdel(0, 1, 1),
+				bset(0, 1, 2, 0), bset(0, 2, 1, 11), bdel(0, 2, 1), hdJoinOp(3, 2, 3), set(1, 1, 1), bset(0, 1, 1, 11), bdel(0, 1, 1),
+				hdOp{K: "api", B: 0, SignAs: 1, R: 1, Api: "transient", Tk: "set", Key: 1, Tag: 12},
+				hdOp{K: "api", B: 0, SignAs: 0, R: 1, Api: "transienthttp", Tk: "set", Key: 1, Tag: 12}, set(2, 2, 2))
+			// two rooms with the same name and keys on two backends
+			two := []hdOp{{K: "connect", C: 1}, {K: "connect", C: 2}, {K: "connect", C: 3}, {K: "connect", C: 4},
+				{K: "hello", C: 1, B: 0, U: 1}, {K: "hello", C: 2, B: 1, U: 1}, {K: "hello", C: 3, B: 0, U: 2}, {K: "hello", C: 4, B: 1, U: 2},
+				hdJoinOp(1, 1, 1), hdJoinOp(2, 1, 2), set(1, 1, 1), set(2, 1, 2), hdJoinOp(3, 1, 3), hdJoinOp(4, 1, 4), bset(1, 1, 1, 11), bset(0, 1, 2, 12), rem(3, 1), rem(4, 2), bdel(1, 1, 1),
+				hdJoinOp(1, 0, 0), hdJoinOp(3, 0, 0), set(4, 1, 3), hdJoinOp(1, 1, 1)}
+			out = append(out, &hdCase{Id: id, Mode: 1, Ops: two})
+			id++
+			// virtual sessions are no listeners; internal clients are, and may always change the data
+			virt := []hdOp{{K: "connect", C: 1}, {K: "connect", C: 2}, {K: "hello", C: 1, Ht: "internal", B: 0}, {K: "hello", C: 2, B: 0, U: 5},
+				joinP(2, 1, 1), hdJoinOp(1, 1, 0), {K: "internal", C: 1, Ik: "addsession", V: 7, R: 1, U: 9}, set(1, 1, 1), set(2, 1, 2),
+				{K: "internal", C: 1, Ik: "addsession", V: 8, R: 1, U: 8}, rem(1, 1), {K: "internal", C: 1, Ik: "removesession", V: 7, R: 1}, set(1, 2, 2),
+				hdJoinOp(1, 2, 0), set(1, 1, 1), hdJoinOp(2, 2, 1)}
+			out = append(out, &hdCase{Id: id, Mode: 1, Ops: virt})
+			id++
+			// the room request travels through the bus: a client's set overtakes it; the session leaves before it arrives;
+			// the room is gone when it arrives
+			async := append(append([]hdOp{}, three...), hdJoinOp(1, 1, 1), hdOp{K: "drain"}, hdJoinOp(2, 1, 2), hdOp{K: "drain"},
+				bset(0, 1, 1, 11), set(1, 1, 1), hdOp{K: "drain"}, bset(0, 1, 2, 12), hdJoinOp(2, 2, 2), hdOp{K: "deliversubj", Sk: "backendroom"}, hdOp{K: "drain"},
+				bdel(0, 1, 1), bset(0, 1, 1, 13), hdOp{K: "deliver", Subj: 1}, hdOp{K: "drain"},
+				bset(0, 2, 1, 11), hdJoinOp(2, 0, 0), hdOp{K: "drain"}, hdJoinOp(2, 2, 2), hdOp{K: "drain"})
+			out = append(out, &hdCase{Id: id, Mode: 2, Async: true, Ops: async})
+			id++
+			return out
+		}})
+}
